@@ -3,6 +3,8 @@
   coq/gen/AstTypes.v        the AnalyserEquationAst::Type enumeration (src/api/libcellml/analyserequationast.h)
   coq/gen/ProfileStrings.v  every string / boolean member assigned in GeneratorProfileImpl::loadProfile
                             (src/generatorprofile.cpp), once for the C branch and once for the PYTHON branch
+  coq/gen/ProfileMembers.v  (C17) the data members of struct GeneratorProfileImpl, the members loadProfile assigns, and the
+                            difference (members that survive setProfile)
 
 Fails loudly (exception => "translation broken" => broken obligation) when the source does not have the
 expected shape: unknown right-hand side, a member assigned in one branch only, an enum that cannot be parsed.
@@ -230,9 +232,78 @@ def gen_asttypes_v(repo):
     return "\n".join(lines)
 
 
+def parse_struct_members(repo):
+    """the std::string / bool data members of struct GeneratorProfile::GeneratorProfileImpl, in declaration order
+    (the Profile tag mProfile is left out: loadProfile assigns it before the two branches).  Fails loudly on a data member
+    of another type or when the tag is not assigned at the top of loadProfile."""
+    src = _strip_comments(open(os.path.join(repo, "src", "generatorprofile.cpp")).read())
+    m = re.search(r"struct\s+GeneratorProfile::GeneratorProfileImpl\s*\{", src)
+    if not m:
+        raise ValueError("struct GeneratorProfileImpl not found")
+    body, _ = _balanced_block(src, m.end() - 1)
+    members = []
+    for st in _statements(re.sub(r"\bvoid\s+loadProfile\s*\([^)]*\)\s*;", "", body)):
+        mm = re.match(r"^(std::string|bool|GeneratorProfile::Profile)\s+(m[A-Z]\w*)\s*(?:=.*)?$", st, flags=re.S)
+        if not mm:
+            raise ValueError("unexpected member declaration in GeneratorProfileImpl: %r" % st[:80])
+        if mm.group(1) == "GeneratorProfile::Profile":
+            if mm.group(2) != "mProfile":
+                raise ValueError("unexpected Profile member %s" % mm.group(2))
+            continue
+        members.append((mm.group(2), "bool" if mm.group(1) == "bool" else "string"))
+    m = re.search(r"void\s+GeneratorProfile::GeneratorProfileImpl::loadProfile\s*\([^)]*\)\s*\{\s*mProfile\s*=\s*profile\s*;", src)
+    if not m:
+        raise ValueError("loadProfile no longer starts with `mProfile = profile;`")
+    return members
+
+
+def setter_of(member):
+    """mFooFdmWevString -> ("setFooString", ["true", "true"]);  mHasFoo -> ("setHasFoo", [])  (public API of generatorprofile.h)"""
+    n = member[1:]
+    if n.startswith("Has") and not n.endswith("String"):
+        return "set" + n, []
+    mm = re.match(r"^(.*?)(Fam|Fdm)?(Woev|Wev)?String$", n)
+    if not mm:
+        raise ValueError("member %s has no setter naming rule" % member)
+    args = []
+    if mm.group(2):
+        args.append("true" if mm.group(2) == "Fdm" else "false")
+    if mm.group(3):
+        args.append("true" if mm.group(3) == "Wev" else "false")
+    return "set" + mm.group(1) + "String", args
+
+
+def gen_members_v(repo):
+    members = parse_struct_members(repo)
+    c, p, order = parse_profiles(repo)          # parse_profiles already fails when the two branches assign different members
+    names = [n for n, _ in members]
+    for n in order:
+        if n not in names:
+            raise ValueError("loadProfile assigns %s which is not a data member of GeneratorProfileImpl" % n)
+    hdr = open(os.path.join(repo, "src", "api", "libcellml", "generatorprofile.h")).read()
+    setters = set(re.findall(r"void (set\w+)\(", hdr))
+    for n in names:
+        if setter_of(n)[0] not in setters:
+            raise ValueError("no public setter %s for member %s" % (setter_of(n)[0], n))
+
+    def lst(xs):
+        return "[" + ";\n   ".join('"%s"' % x for x in xs) + "]"
+    lines = ["(** ProfileMembers.v — GENERATED by tools/translate_profile.py from /repo/src/generatorprofile.cpp.  Do not edit.",
+             "    struct_members    : the std::string / bool data members of struct GeneratorProfileImpl (every one has a public setter);",
+             "    assigned_members  : the members assigned in BOTH branches of GeneratorProfileImpl::loadProfile (the translator",
+             "                        fails when a member is assigned in one branch only);",
+             "    unassigned_members: struct_members that loadProfile never assigns. *)",
+             "From Coq Require Import String List.", "Import ListNotations.", "Local Open Scope string_scope.", "",
+             "Definition struct_members : list string :=\n  %s." % lst(names), "",
+             "Definition assigned_members : list string :=\n  %s." % lst(order), "",
+             "Definition unassigned_members : list string :=\n  %s." % lst([n for n in names if n not in order]), ""]
+    return "\n".join(lines)
+
+
 def run(repo, gendir):
     write_if_changed(os.path.join(gendir, "AstTypes.v"), gen_asttypes_v(repo))
     write_if_changed(os.path.join(gendir, "ProfileStrings.v"), gen_profile_v(repo))
+    write_if_changed(os.path.join(gendir, "ProfileMembers.v"), gen_members_v(repo))
 
 
 if __name__ == "__main__":
